@@ -15,17 +15,20 @@ structure Rec20 where
   before : List String    -- one digest per argument (parameters, batch, loss object / generator, …)
   after  : List String
   result : String         -- canonical exact rendering of the returned value
+  rejected : Bool         -- the call raised instead of returning (all calls of a history are valid)
 deriving Repr
 
 /-- (1) no call modifies any of its arguments -/
 def frameOk (r : Rec20) : Bool := r.before == r.after
 
-/-- (2)+(3) the same call returns the same value wherever it occurs in the history and in whichever
+/-- (0) a valid call returns in every execution mode;
+    (2)+(3) the same call returns the same value wherever it occurs in the history and in whichever
     mode it is executed -/
 def c20Scan : List (Nat × String × String) → List Rec20 → Option String
   | _, [] => none
   | seen, r :: rs =>
     if !(frameOk r) then some "argument-modified"
+    else if r.rejected then some "valid-call-rejected"
     else match seen.find? (fun s => s.1 == r.call) with
       | none => c20Scan (seen ++ [(r.call, r.mode, r.result)]) rs
       | some s =>
